@@ -106,9 +106,15 @@ def Obj.scalar (o : Obj) (k : String) : Cls → Option Val
   | .amount => none
   | .blob => (o.blobs.lookup k).map Val.bytes
 
+/-- all elements present -/
+def allSome {α : Type} : List (Option α) → Option (List α)
+  | [] => some []
+  | none :: _ => none
+  | some a :: r => (allSome r).map (a :: ·)
+
 def Obj.column (o : Obj) (list k : String) : Option (List Nat) :=
   match o.lists.lookup list with
-  | some rows => rows.mapM (fun r => r.lookup k)
+  | some rows => allSome (rows.map fun r => r.lookup k)
   | none => none
 
 /-- what the Go code packs for one argument (field path + cast, from the Go source) -/
@@ -127,7 +133,7 @@ def evalGo (o : Obj) (gid : Nat) : GoSrc → Option Val
   | .each _ _ _ => none
   | .unknown _ => none
 
-def goArgs (L : GoLayout) (o : Obj) (gid : Nat) : Option (List Val) := L.args.mapM (fun a => evalGo o gid a.src)
+def goArgs (L : GoLayout) (o : Obj) (gid : Nat) : Option (List Val) := allSome (L.args.map fun a => evalGo o gid a.src)
 
 /-- the relayer convention: which object field is submitted for which contract parameter -/
 inductive Slot where
@@ -216,7 +222,7 @@ def evalSol (spec : List SpecArg) (o : Obj) (gid : Nat) (a : SolArg) : Option Va
     | none => none
 
 def solArgs (spec : List SpecArg) (S : SolSite) (o : Obj) (gid : Nat) : Option (List Val) :=
-  S.args.mapM (evalSol spec o gid)
+  allSome (S.args.map (evalSol spec o gid))
 
 def findGo (ls : List GoLayout) (kind : String) : GoLayout :=
   (ls.find? (·.kind == kind)).getD ⟨kind, "", false, []⟩
@@ -278,6 +284,18 @@ def layoutsAgree (file kind : String) : Bool :=
   zipAll (goArgMatches true) T.args (specOf kind) &&
   zipAll (solArgMatches (goTag L)) S.args (specOf kind) &&
   goTag T == goTag L
+
+def kindOfFunc : String → Option String
+  | "makeCheckpoint" => some "oracleSet"
+  | "submitBatch" => some "batch"
+  | "bridgeCallSigHash" => some "bridgeCall"
+  | _ => none
+
+/-- every `abi.encode(...)` site of every bridge contract variant is one of the three digests and agrees -/
+def allSitesAgree : Bool :=
+  solSites.all fun S => match kindOfFunc S.func with
+    | some k => layoutsAgree S.file k
+    | none => false
 
 /-- bytes32 of a short ASCII string (`fxtypes.StrToByte32`): right-padded with zeros -/
 def strWord (s : String) : Nat :=
